@@ -429,6 +429,12 @@ class StmtMixin:
         v = self.voc
         body = s.body
         names = assigned_names(body, st.env)
+        # nested functions called in the body mutate the enclosing function's containers
+        for n_ in ast.walk(ast.Module(body=list(body), type_ignores=[])):
+            if isinstance(n_, ast.Call) and isinstance(n_.func, ast.Name) and n_.func.id in fr.closures:
+                cdef = fr.closures[n_.func.id]
+                params = {a.arg for a in cdef.args.args}
+                names |= {x for x in assigned_names(cdef.body, st.env) if x not in params and x in st.env}
         if kind == "for":
             names |= {n.id for n in ast.walk(s.target) if isinstance(n, ast.Name)}
         attrs = assigned_attrs(body) | self.callee_modifies(body, fr, st.env)
@@ -474,7 +480,7 @@ class StmtMixin:
                 if old.py and old.py[0] == "defaultdict":
                     h.env[n].py = old.py
                 if old.pt not in NATIVE and old.pt != "any":
-                    tyname = {"list": "list", "tuple": "tuple", "dict": "dict"}.get(old.pt)
+                    tyname = {"list": "list", "tuple": "tuple", "dict": "dict", "set": "set"}.get(old.pt)
                     if tyname:
                         h.facts.append(v.ty(h.env[n].t) == v.cls[tyname])
             elif n in h.env:
